@@ -45,6 +45,7 @@ def check(tier, seed, replay=None):
         PC.expect_dev(chk, "DevLimiterNoComplete", "group", 2, "LimitIsSlice")
         PC.expect_dev(chk, "DevPopOldest", "sort", 2, "LimitIsSlice")
         PC.expect_dev(chk, "DevTruncAll", "sort", 2, "LimitIsSlice")
+        PC.expect_dev(chk, "DevSpaceCountsKeyless", "sort", 3, "LimitIsSlice")
         nb = 0
         for fam in ("sort", "group"):
             for v in PC.simulate(fam, 6, 300 if quick else 5000, seed):
